@@ -648,7 +648,7 @@ func (tr *fnTrans) appendOp(cc *ssa.CallCommon, ins ssa.Instruction) Term {
 			app("s_len", s.S), newA, rref("qv!k"), oldA, sref("qv!k"), newA, rref("qv!k")))
 		tr.assume(fmt.Sprintf("(forall ((qv!k Int)) (! (=> (and (<= 0 qv!k) (< qv!k %s)) (= (select %s %s) (select %s %s))) :pattern ((select %s %s))))",
 			app("s_len", t.S), newA, rref("(+ "+app("s_len", s.S)+" qv!k)"), oldA, tref("qv!k"), newA, rref("(+ "+app("s_len", s.S)+" qv!k)")))
-		tr.assume(fmt.Sprintf("(forall ((qv!x Ref)) (! (=> (not (and (= (eref_arr qv!x) %s) (<= (+ %s %s) (eref_idx qv!x)) (< (eref_idx qv!x) (+ %s %s)))) (= (select %s qv!x) (select %s qv!x))) :pattern ((select %s qv!x))))",
+		tr.assume(fmt.Sprintf("(forall ((qv!x Ref)) (! (=> (not (and (= qv!x (eref (eref_arr qv!x) (eref_idx qv!x))) (= (eref_arr qv!x) %s) (<= (+ %s %s) (eref_idx qv!x)) (< (eref_idx qv!x) (+ %s %s)))) (= (select %s qv!x) (select %s qv!x))) :pattern ((select %s qv!x))))",
 			app("s_arr", r.S), app("s_off", r.S), app("s_len", s.S), app("s_off", r.S), newLen, newA, oldA, newA))
 		tr.set(tr.cur, comp, tr.compSort[comp], newA)
 	}
